@@ -695,15 +695,18 @@ Lemma size_arith a b c : 1 <= a <= 2147483647 -> 1 <= b <= 2147483647 -> 0 <= c 
   c * (b - 1) + a < 18446744073709551616.
 Proof. intros. nia. Qed.
 
+Lemma int_max_eq : INT_MAX = 2147483647. Proof. reflexivity. Qed.
+Lemma int_min_eq : INT_MIN = -2147483648. Proof. reflexivity. Qed.
+
 Lemma plane_size_lt_2_64 c w a h s stride : valid_samp s -> valid_dim w -> valid_dim h -> INT_MIN < stride <= INT_MAX ->
   plane_fits c w a h s = true -> plane_size c w stride h s < 18446744073709551616.
 Proof.
-  intros Hs Hw Hh Hst Fc. unfold plane_fits in Fc.
+  intros Hs Hw Hh Hst Fc. unfold plane_fits in Fc. pose proof int_max_eq as EM. pose proof int_min_eq as Em.
   pose proof (spec_pw_bounds c w s Hs Hw) as [B _]. pose proof (spec_ph_bounds c h s Hs Hh) as [B' _].
-  assert (B1 : spec_pw c w s <= 2147483647) by (unfold INT_MAX in Fc; lia).
-  assert (B2 : spec_ph c h s <= 2147483647) by (unfold INT_MAX in Fc; lia).
+  assert (B1 : spec_pw c w s <= 2147483647) by lia.
+  assert (B2 : spec_ph c h s <= 2147483647) by lia.
   assert (B3 : 0 <= eff_stride stride (spec_pw c w s) <= 2147483648).
-  { unfold eff_stride. unfold INT_MIN, INT_MAX in Hst. destruct (stride =? 0); lia. }
+  { unfold eff_stride. destruct (stride =? 0); lia. }
   unfold plane_size. apply size_arith; lia.
 Qed.
 
@@ -721,7 +724,7 @@ Proof.
   split.
   - unfold spec_total. destruct (s =? TJSAMP_GRAY); lia.
   - pose proof (chroma_fits c w k h s Hs Hw Hh ltac:(lia) F) as Fc.
-    apply plane_size_lt_2_64; assumption.
+    apply (plane_size_lt_2_64 c w (2 ^ k) h s); assumption.
 Qed.
 
 (* ------------------------------------------------------------------ scaled dimensions *)
@@ -734,7 +737,7 @@ Proof. vm_compute. reflexivity. Qed.
 Lemma sf_tbl_length : Z.of_nat (length sf_tbl) = NUMSF.
 Proof. reflexivity. Qed.
 
-Theorem scaled_dim_spec num denom dim : In (num, denom) sf_tbl -> 0 <= dim -> dim * num + denom - 1 <= INT_MAX ->
+Theorem scaled_dim_spec num denom dim : In (num, denom) sf_tbl -> 0 <= dim -> dim * num + denom <= INT_MAX ->
   scaled_dim dim num denom = Val (cdiv (dim * num) denom) /\
   (cdiv (dim * num) denom - 1) * denom < dim * num <= cdiv (dim * num) denom * denom /\
   dtp_dctsize num denom * denom = DCTSIZE * num.
@@ -744,8 +747,9 @@ Proof.
   assert (Hm : (DCTSIZE * num) mod denom = 0) by lia. clear F.
   split; [|split].
   - unfold scaled_dim.
-    assert (OK : TJSCALED_c_ok dim num denom = true) by (unfold TJSCALED_c_ok, in_int, INT_MIN, INT_MAX in *; nia).
-    rewrite OK. unfold TJSCALED_c. rewrite Z.quot_div_nonneg by nia. reflexivity.
+    assert (P : 0 <= dim * num) by (apply Z.mul_nonneg_nonneg; lia).
+    assert (OK : TJSCALED_c_ok dim num denom = true) by (unfold TJSCALED_c_ok, in_int, INT_MIN, INT_MAX in *; lia).
+    rewrite OK. unfold TJSCALED_c. rewrite Z.quot_div_nonneg by lia. reflexivity.
   - apply cdiv_spec. lia.
   - unfold dtp_dctsize. rewrite Z.quot_div_nonneg by (unfold DCTSIZE; lia).
     pose proof (Z.div_mod (DCTSIZE * num) denom ltac:(lia)). lia.
@@ -756,7 +760,8 @@ Corollary scaled_dim_jpeg num denom dim : In (num, denom) sf_tbl -> 0 <= dim <= 
   scaled_dim dim num denom = Val (cdiv (dim * num) denom).
 Proof.
   intros Hin Hd. pose proof (proj1 (forallb_forall _ _) sf_tbl_ok _ Hin) as F. unfold sf_ok in F. cbn [fst snd] in F.
-  apply scaled_dim_spec; try assumption; unfold INT_MAX; nia.
+  assert (P : 0 <= dim * num <= 65535 * 15) by (split; [apply Z.mul_nonneg_nonneg; lia|apply Z.mul_le_mono_nonneg; lia]).
+  apply scaled_dim_spec; try assumption; unfold INT_MAX; lia.
 Qed.
 
 (* ------------------------------------------------------------------ alignment predicate *)
@@ -855,7 +860,7 @@ Definition overflow_checks_statement : Prop :=
   (* no sum or product of the size functions can wrap the 64-bit accumulator *)
   (plane_fits 0 w a h s = true -> spec_total w a h s < 18446744073709551616) /\
   (* invalid arguments *)
-  (forall w' a' h' s' c, w' < 1 \/ s' < 0 \/ s' >= TJ_NUMSAMP -> tj3YUVPlaneWidth c w' s' = 0) /\
+  (forall w' s' c, w' < 1 \/ s' < 0 \/ s' >= TJ_NUMSAMP -> tj3YUVPlaneWidth c w' s' = 0) /\
   (forall w' a' h' s', a' < 1 \/ IS_POW2_c a' = false \/ s' < 0 \/ s' >= TJ_NUMSAMP -> tj3YUVBufSize ulbits szbits w' a' h' s' = 0).
 
 Lemma overflow_checks_proof : overflow_checks_statement.
@@ -866,7 +871,7 @@ Proof.
   split; [exact E1|]. split; [exact E2|].
   split. { intros c stride Hc Hst. apply planesize_error_iff; assumption. }
   split. { intros F. apply (sizes_fit_64 w a h s 0 1 Hs Hw Hh Ha); [unfold INT_MIN, INT_MAX; lia|assumption]. }
-  split. { intros w' a' h' s' c H. apply plane_width_invalid. assumption. }
+  split. { intros w' s' c H. apply plane_width_invalid. assumption. }
   intros w' a' h' s' H. apply bufsize_invalid. assumption.
 Qed.
 
@@ -890,7 +895,7 @@ Qed.
 Definition scaled_dims_statement : Prop :=
   Z.of_nat (length sf_tbl) = NUMSF /\
   forall num denom dim, In (num, denom) sf_tbl ->
-  (0 <= dim -> dim * num + denom - 1 <= INT_MAX ->
+  (0 <= dim -> dim * num + denom <= INT_MAX ->
      scaled_dim dim num denom = Val (cdiv (dim * num) denom) /\
      (cdiv (dim * num) denom - 1) * denom < dim * num <= cdiv (dim * num) denom * denom /\
      dtp_dctsize num denom * denom = DCTSIZE * num) /\
